@@ -664,6 +664,13 @@ class World:
     def op_apply(self, o, i, j, keep=1):
         op = BIN_OPS[o % len(BIN_OPS)]
         (u, tu), (v, tv) = self.pick(i), self.pick(j)
+        if self.kind == 'autoref' and (keep >> 9) & 1:
+            self.label('apply.temporary_operands')
+            F = self.F
+            r = self.A.apply(op, u & ~v, v | ~u)
+            self.hold(r, tt.BINARY[op](tu & ~tv & F, (tv | ~tu) & F,
+                                       self.n), keep)
+            return
         r = self.call('apply', keep, ('op', op), ('u', u), ('v', v))
         self.hold(r, tt.BINARY[op](tu, tv, self.n), keep)
 
@@ -674,6 +681,14 @@ class World:
 
     def op_ite(self, i, j, k, keep=1):
         (g, tg), (u, tu), (v, tv) = self.pick(i), self.pick(j), self.pick(k)
+        if self.kind == 'autoref' and (keep >> 9) & 1:
+            # operands that only the argument list references
+            self.label('ite.temporary_operands')
+            F = self.F
+            r = self.A.ite(g | ~u, u & v, v.implies(g))
+            self.hold(r, tt.ite((tg | ~tu) & F, tu & tv, (~tv | tg) & F,
+                                self.n), keep)
+            return
         self.hold(self.call('ite', keep, ('g', g), ('u', u), ('v', v)),
                   tt.ite(tg, tu, tv, self.n), keep)
 
